@@ -48,6 +48,10 @@ def main():
         if meta.get("in_scope") is False:
             bad = [c for c, v in res.items() if v["exit"] != 0]
             summary.append((sid, "out of scope of every property; " + ("REPORTED by " + ",".join(bad) if bad else "not reported (as it should be)")))
+        elif meta.get("expect") == "no-failing-input-found":
+            hard = [c for c, v in res.items() if v["exit"] != 0 and "no-failing-input-found" not in (v["violation"] or "")]
+            soft = [c for c, v in res.items() if v["exit"] != 0 and "no-failing-input-found" in (v["violation"] or "")]
+            summary.append((sid, ("FALSE-ALARM (with a failing input!) by " + ",".join(hard)) if hard else ("changes a modelled choice: reported as no-failing-input-found by " + ",".join(soft) if soft else "no alarm")))
         elif meta.get("expect") == "pass":
             bad = [c for c, v in res.items() if v["exit"] != 0]
             summary.append((sid, "FALSE-ALARM by " + ",".join(bad) if bad else "no alarm (as it should be)"))
